@@ -9,3 +9,26 @@ package txresult
 //@   trusted
 //@   pure
 //@   ensures r != nil
+
+// ---------------------------------------------------------------------------
+// C22: receipts are stored and looked up under key(index)
+// ---------------------------------------------------------------------------
+//@ property C22
+//@ func (l *receiptList) Get(n) (r, err)
+//@   arith bv
+//@   nosafety
+//@   noframe
+//@   requires l != nil
+//@   callpre Get: idxKey(k, uint64(n))
+//@ func (l *receiptList) GetProof(n) (p, err)
+//@   arith bv
+//@   nosafety
+//@   noframe
+//@   requires l != nil
+//@   callpre GetProof: idxKey(k, uint64(n))
+//@ func NewReceiptListFromSlice(database, list) (r)
+//@   arith bv
+//@   nosafety
+//@   noframe
+//@   callpre Set: idxKey(k, uint64(idx)) && typeof(o) == typeid(ptr_receipt) && toiface(as(ptr_receipt, o)) == list[idx]
+//@   loop 0: invariant -1 <= rangeindex && rangeindex < len(list)
